@@ -342,7 +342,11 @@ class CircuitWorld(World):
                 h = C.gen_gate_j(rng, 4, allow=("par", "cpar", "c", "one"))
             return {"k": k, "g1": g, "g2": h}
         name = rng.choice(["RX", "RY", "RZ", "PHASE"])
-        return {"k": "cliff", "gate": [name, [rng.randrange(3)], None, rng.randint(-9, 9) * PI / 2, False]}
+        kq = rng.randint(-9, 9) if rng.random() < 0.5 else rng.randint(-60, 60)
+        form = rng.randrange(4)
+        ang = [kq * (PI / 2), (kq * PI) / 2, kq * PI * 0.5, sum([PI / 2] * abs(kq)) * (1 if kq >= 0 else -1)][form]
+        off = rng.choice([0.0, 0.0, 0.0, 1e-6, -1e-6, 5e-5, -5e-5, 9e-5, -9e-5, 3e-4, -3e-4, 1e-2])
+        return {"k": "cliff", "gate": [name, [rng.randrange(3)], None, ang + off, False], "kq": kq, "off": off}
 
     # ------------------------------------------------------------------------------------------------------------------
     # execution
@@ -869,21 +873,46 @@ class CircuitWorld(World):
         else:
             j = op["gate"]
             g = C.j_to_gate(j)
+            kq = int(round(j[3] / (PI / 2)))
+            off = j[3] - kq * (PI / 2)
+            within = abs(off) <= 9.5e-5           # documented default tolerance 1e-4 (margin for float error of the remainder)
+            try:
+                said = bool(g.is_clifford())
+            except Exception:
+                said = None
             try:
                 dec = decompose_gate_to_cliffords(g)
             except Exception as ex:
-                ctx.outcome(k, "refused-undetermined")
                 ctx.ev("cliff-refused", j, type(ex).__name__)
+                if within:
+                    ctx.outcome(k, "refused-unexpectedly")
+                    return [Violation("C09", "clifford-angle-refused", f"{j[0]}", {"gate": j, "k": kq, "offset": off, "is_clifford": said,
+                                                                                  "exception": repr(ex)[:160]})]
+                ctx.outcome(k, "refused-as-expected" if abs(off) > 1.05e-4 else "refused-undetermined")
+                if said and abs(off) > 1.05e-4:
+                    V.append(Violation("C09", "is_clifford-disagrees-with-decomposition", j[0], {"gate": j, "is_clifford": said}))
                 return V
+            if abs(off) > 1.05e-4:
+                ctx.outcome(k, "accepted-non-clifford")
+                return [Violation("C09", "non-clifford-angle-decomposed", j[0], {"gate": j, "k": kq, "offset": off})]
             dec = dec if isinstance(dec, list) else [dec]
             n = j[1][0] + 1
-            d = R.phase_dist(R.unitary([C.j_to_ref(C.gate_to_j(x)) for x in dec], n), R.unitary([C.j_to_ref(j)], n)) / math.sqrt(2 ** n)
+            # a parameter within the tolerance of a Clifford point stands for that point
+            jn = [j[0], j[1], j[2], kq * (PI / 2), False]
+            d = R.phase_dist(R.unitary([C.j_to_ref(C.gate_to_j(x)) for x in dec], n), R.unitary([C.j_to_ref(jn)], n)) / math.sqrt(2 ** n)
             ctx.check("C09.clifford_decomposition")
+            if off != 0.0:
+                ctx.probe("C09.clifford_angle_off_by_less_than_tolerance")
+            if abs(kq) > 9:
+                ctx.probe("C09.clifford_angle_many_turns")
             ctx.outcome(k, "ok")
             if d > 1e-6:
-                kk = int(round(j[3] / (PI / 2))) % 4
-                V.append(Violation("C09", "clifford-decomposition-differs", f"{j[0]}@{kk}*pi/2", {"gate": j, "dist": d,
+                V.append(Violation("C09", "clifford-decomposition-differs", f"{j[0]}@{kq % 4}*pi/2", {"gate": j, "dist": d, "offset": off,
                                    "decomposition": [C.gate_to_j(x) for x in dec]}))
+            if said is False and within:
+                V.append(Violation("C09", "is_clifford-disagrees-with-decomposition", j[0], {"gate": j, "is_clifford": said}))
+            if C.snap_gate(g) != C.snap_gate(C.j_to_gate(j)):
+                V.append(Violation("C09", "input-mutated", "decompose_gate_to_cliffords", {"gate": j}))
         return V
 
     # ------------------------------------------------------------------------------------------------------------------
